@@ -73,6 +73,7 @@ type c03World struct {
 	genOf    map[string]int // blob -> run number that provisioned it
 	foreign  map[string]string
 	thorough bool
+	label    string // handler option key_label ("" = not configured)
 	shim     bool   // the requester's agent is the project's own shim agent in front of the key store
 	addr     string
 	c        *ev.Ctx
@@ -82,6 +83,9 @@ func newC03World(c *ev.Ctx, root string) bfs.World {
 	x := &c03World{genOf: map[string]int{}, foreign: map[string]string{}, thorough: c.Thorough(), c: c}
 	if strings.HasSuffix(root, "/shim") {
 		x.shim, root = true, strings.TrimSuffix(root, "/shim")
+	}
+	if i := strings.Index(root, "/label="); i >= 0 {
+		x.label, root = root[i+len("/label="):], root[:i]
 	}
 	x.e = newEnv(envOpt{KeyDir: "pub", LogName: "alice", Validity: 43200, KeyIDs: map[string]string{"default": "slot"}, Behaviour: "honest", AgentHasKey: true})
 	var mask int
@@ -129,6 +133,9 @@ func (x *c03World) Key() string {
 	if x.shim {
 		s = append(s, "~shim")
 	}
+	if x.label != "" {
+		s = append(s, "~label="+x.label)
+	}
 	for _, id := range x.e.ua.Ring.Keys {
 		if _, f := x.foreign[string(id.Blob)]; f {
 			s = append(s, "foreign:"+id.Comment)
@@ -169,17 +176,32 @@ func (x *c03World) Enabled() []bfs.Op {
 	return ops
 }
 
+// labelled: the certificates this handler provisioned in earlier runs and that the agent still holds. They are
+// recognised by provenance (the RA added them during a run), not by their comment: which comment the handler gives its
+// certificates is its own business (a configurable label included), the generation rule is not.
 func (x *c03World) labelled() map[string]bool {
 	m := map[string]bool{}
 	for _, id := range x.e.ua.Ring.Keys {
-		if _, f := x.foreign[string(id.Blob)]; f {
-			continue
-		}
-		if strings.Contains(id.Comment, c03Label) {
+		if x.raCert(id.Blob) {
 			m[string(id.Blob)] = true
 		}
 	}
 	return m
+}
+
+func (x *c03World) raCert(blob []byte) bool {
+	if _, f := x.foreign[string(blob)]; f {
+		return false
+	}
+	if _, ok := x.genOf[string(blob)]; !ok {
+		return false
+	}
+	pk, err := ssh.ParsePublicKey(blob)
+	if err != nil {
+		return false
+	}
+	_, isCert := pk.(*ssh.Certificate)
+	return isCert
 }
 
 func (x *c03World) Apply(op bfs.Op) (fs []bfs.Finding) {
@@ -195,7 +217,11 @@ func (x *c03World) Apply(op bfs.Op) (fs []bfs.Finding) {
 	if op.Name == "fail-generate-noslot" {
 		keyIDs = map[string]any{"rsa": "slot"}
 	}
-	js, _ := json.Marshal(map[string]any{"handlers": map[string]any{regular.HandlerName: map[string]any{"pub_key_dir": e.dir, "cert_validity_sec": validity, "key_identifiers": keyIDs}}})
+	hconf := map[string]any{"pub_key_dir": e.dir, "cert_validity_sec": validity, "key_identifiers": keyIDs}
+	if x.label != "" {
+		hconf["key_label"] = x.label
+	}
+	js, _ := json.Marshal(map[string]any{"handlers": map[string]any{regular.HandlerName: hconf}})
 	conf := new(config.GensignConfig)
 	json.Unmarshal(js, conf)
 	h, herr := regular.NewHandler(conf, e.conn)
@@ -255,7 +281,7 @@ func (x *c03World) Apply(op bfs.Op) (fs []bfs.Finding) {
 	labelledBefore := x.labelled()
 	unlabelledBefore := map[string]string{} // every identity without the handler's label, incl. RA private keys of earlier runs
 	for _, id := range e.ua.Ring.Keys {
-		if !strings.Contains(id.Comment, c03Label) {
+		if !x.raCert(id.Blob) {
 			unlabelledBefore[string(id.Blob)] = id.Comment
 		}
 	}
@@ -379,7 +405,7 @@ func (x *c03World) Apply(op bfs.Op) (fs []bfs.Finding) {
 
 func checkC03(c *ev.Ctx) {
 	defer cleanupScratch()
-	c.Rule("E1 BFS over sequences of real gensign.Run executions against one agent: transitions = success with the CA returning 1..3 certificates x comment lists {none, shorter with empty strings, longer} and validity {1 s, 12 h, 10 y}, incl. replies in which the CA grants 10 min to the first / middle / last certificate only; failure at authentication, at private-key insertion, missing key slot, CA error, agent failure at list / certificate add (thorough: remove, CA panic); roots = all 32 subsets of {plain key, foreign certificate, 3 near-miss comments} over a plain key store, plus 6 of them behind the real shim agent (virtual clock; fault-free and pre-signing-failure transitions); state = canonical identity multiset (class, generation age, comment, lifetime). non-trivial = successful run, or failed run with certificates at stake; distinct by (state, transition)")
+	c.Rule("E1 BFS over sequences of real gensign.Run executions against one agent: transitions = success with the CA returning 1..3 certificates x comment lists {none, shorter with empty strings, longer} and validity {1 s, 12 h, 10 y}, incl. replies in which the CA grants 10 min to the first / middle / last certificate only; failure at authentication, at private-key insertion, missing key slot, CA error, agent failure at list / certificate add (thorough: remove, CA panic); roots = all 32 subsets of {plain key, foreign certificate, 3 near-miss comments} over a plain key store, plus 6 roots with the documented key_label option set, plus 6 behind the real shim agent (virtual clock; fault-free and pre-signing-failure transitions); state = canonical identity multiset (class, generation age, comment, lifetime). non-trivial = successful run, or failed run with certificates at stake; distinct by (state, transition)")
 	c.Assume("identities whose comment contains the handler name inside a longer word are don't-care", "lifetime constraints are read from the add-identity requests as parsed by x/crypto's agent server")
 	var roots []string
 	for m := 0; m < 32; m++ {
@@ -389,6 +415,10 @@ func checkC03(c *ev.Ctx) {
 	// rewritten comments and removes lapsed ones on its own)
 	for _, m := range []int{0, 31, 5, 10, 16, 3} {
 		roots = append(roots, fmt.Sprintf("%d/shim", m))
+	}
+	// the same histories under handler configurations that set the documented key_label option
+	for _, lb := range []string{"corp-ssh", "x-paranoids.regular-y", "Paranoids.Regular"} {
+		roots = append(roots, "0/label="+lb, "31/label="+lb)
 	}
 	depth := 3
 	if c.Thorough() {
